@@ -4,7 +4,7 @@ import fw, gen_isa
 
 RULE = ("generated instruction sets (prefix-sharing/dotted/digit-leading mnemonics, literal/register/typed/untyped operands, punctuation "
         "wrappers, operator-like separators `{a} - {b}`, same-shape rule families of different width, literal-versus-expression "
-        "overlaps) and programs over them; each program is re-spelled three times with a random combination of: recasing of mnemonics, "
+        "overlaps, several sub-rule operands each readable literally or as an expression) and programs over them; each program is re-spelled three times with a random combination of: recasing of mnemonics, "
         "literal operands and register names; widening of existing blanks with blanks and tabs and insertion of blanks where the pattern "
         "has none; trailing and block comments; permutation of the rules and re-partition into 1-3 blocks; consistent label renaming. "
         "asm::assemble must give the same success/failure and the same bits (symbols equal up to the renaming) for every spelling, equal "
@@ -58,6 +58,45 @@ def variant(rng, p):
         kw["rename"] = ren
         which.append("rename")
     return kw, ren, which
+
+
+def gen_subrule_overlap(rng):
+    """several sub-rule operands each of which can be read literally (`a`) or as an expression (a constant named `a`): the
+    literal reading wins in every position, whatever the other operands are.  Returns (text, expected hex)."""
+    lits = rng.sample(["a", "b", "hl", "x"], rng.randrange(1, 4))
+    enc = dict((l, rng.randrange(1 << 16)) for l in lits)
+    wide = rng.random() < 0.5
+    out = ["#subruledef operand", "{"]
+    alts = ["    %s => 0x%04x" % (l, enc[l]) for l in lits] + ["    {v: u8} => %s" % ("0x01 @ v" if wide else "v")]
+    rng.shuffle(alts)
+    out += alts + ["}", "#ruledef", "{"]
+    rules = [("mov", 2, 0x10), ("inc", 1, 0x20), ("op3", 3, 0x30)]
+    for m, n, opc in rules:
+        out.append("    %s %s => 0x%02x @ %s" % (m, ", ".join("{p%d: operand}" % i for i in range(n)), opc, " @ ".join("p%d" % i for i in range(n))))
+    out.append("}")
+    consts = {}
+    for l in lits + ["k"]:
+        if rng.random() < 0.6:
+            consts[l] = rng.randrange(256)
+    decl = ["%s = %d" % kv for kv in consts.items()]
+    body, hexs = [], ""
+    for _ in range(rng.randrange(2, 7)):
+        m, n, opc = rng.choice(rules)
+        ops, h = [], "%02x" % opc
+        for i in range(n):
+            r = rng.random()
+            if r < 0.5:
+                l = rng.choice(lits); ops.append(l); h += "%04x" % enc[l]
+            elif r < 0.7 and "k" in consts:
+                ops.append("k"); h += ("01" if wide else "") + "%02x" % consts["k"]
+            else:
+                v = rng.randrange(256); ops.append(str(v)); h += ("01" if wide else "") + "%02x" % v
+        body.append("    %s %s" % (m, ", ".join(ops))); hexs += h
+    if rng.random() < 0.5:
+        text = "\n".join(out + decl + body) + "\n"
+    else:
+        text = "\n".join(out + body + decl) + "\n"
+    return text, hexs
 
 
 def split_mnemonic(rng, m):
@@ -161,6 +200,23 @@ def run(chk):
                 chk.count("split_difference_F10")
             else:
                 chk.violate("a blank inside the mnemonic changes the result", inp, str(b)[:300], {"got": il[:300], "model_attribution": r})
+    # ---- several sub-rule operands, each readable literally or as an expression
+    so = [gen_subrule_overlap(rng) for _ in range(1500 if thorough else 150)]
+    sops = [fw.asm_op([("main.asm", t)]) for t, _ in so]
+    simpl = fw.run_oracle_resilient(sops, "c07s")
+    smodel = fw.run_model(sops, "c07s", timeout=3000)
+    for (t, hx), a, ml in zip(so, simpl, smodel):
+        chk.evaluations += 1
+        il = fw.asm_line(a)
+        if il != ml:
+            chk.disagree("subrule overlap:\n%s" % t[-500:], ml[:250], il[:250])
+        r = parse(il)
+        chk.nontriv(t)
+        chk.count("subrule_overlap_" + r[0])
+        want = "".join(format(int(c, 16), "04b") for c in hx)
+        if r[0] != "ok" or r[1] != want:
+            chk.violate("a literally spelled sub-rule operand is not read literally", {"program": t}, "ok " + want, il[:300])
+    chk.traces += len(sops)
     # ---- recorded findings: replay their witnesses
     for k in known.values():
         w = k.get("replay", {})
